@@ -121,6 +121,15 @@ def Graph.wfb (g : Graph) : Bool :=
     | none => false
     | some (s, d) => (g.outEdges s).contains e && (g.inEdges d).contains e)
 
+/-- the `Graph` that `EdgeLoader` builds from `n` vertices and the edge records `es` (edge id = position):
+slot `v` of `adj` (`rev`) receives the ids of the edges whose source (destination) is `v`, in file order -/
+def Graph.ofEdges (n : Nat) (es : List (Nat × Nat)) : Graph :=
+  { n := n, edges := es.toArray,
+    adj := ((List.range n).map (fun v =>
+      (List.range es.length).filter (fun e => (es[e]?).map (·.1) == some v))).toArray,
+    rev := ((List.range n).map (fun v =>
+      (List.range es.length).filter (fun e => (es[e]?).map (·.2) == some v))).toArray }
+
 /-! ### the verified checker (its correctness theorems are in `Props/C18.lean`) -/
 
 /-- the vertices reachable from `v` (forward DFS from an empty visited set) -/
